@@ -27,6 +27,8 @@ func (g *yg) layoutDefs(withBad bool) []yDef {
 		{"Bar", []*yaml.Node{g.str("Bar"), g.mp("!record", g.str("fields"), g.mp("!!map", g.str("f"), g.str("Foo"), g.str("v"), g.str("Foo*")))}},
 		{"Al", []*yaml.Node{g.str("Al"), g.str("Bar?")}},
 		{"P", []*yaml.Node{g.str("P"), g.mp("!protocol", g.str("sequence"), g.mp("!!map", g.str("a"), g.str("Al"), g.str("s"), g.mp("!stream", g.str("items"), g.str("Foo"))))}},
+		// a generic definition: its type parameters are nodes of the model as well
+		{"Gen", []*yaml.Node{g.str("Gen<T1, T2>"), g.mp("!record", g.str("fields"), g.mp("!!map", g.str("one"), g.str("T1"), g.str("two"), g.str("T2*")))}},
 	}
 	if withBad {
 		defs = append(defs, yDef{"Bad", []*yaml.Node{g.str("Bad"), g.mp("!record", g.str("fields"), g.mp("!!map", g.str("q"), g.str("Nope")))}})
@@ -135,7 +137,39 @@ func C13Layouts(bad int, movable int) {
 	if err != nil {
 		return
 	}
-	verifAssert("no-definition-lost-or-duplicated", layoutNames(ns) == "Al,Bar,Foo,P")
+	verifAssert("no-definition-lost-or-duplicated", layoutNames(ns) == "Al,Bar,Foo,Gen,P")
+	// every node of the parsed model knows the file it was read from (diagnostics are located through it): the definition,
+	// everything underneath it, and its type parameters
+	fileOf := map[string]string{}
+	for i, d := range defs {
+		fileOf[d.name] = yLayoutFiles[assign[i]]
+	}
+	unlocated := 0
+	checkDef := func(node dsl.Node, meta *dsl.DefinitionMeta) {
+		want := fileOf[meta.Name]
+		if want == "" || !strings.HasSuffix(meta.File, want) {
+			unlocated++
+		}
+		for _, tp := range meta.TypeParameters {
+			if tp.File != meta.File {
+				unlocated++
+			}
+		}
+		dsl.Visit(node, func(self dsl.Visitor, n dsl.Node) {
+			if n.GetNodeMeta().File != meta.File {
+				unlocated++
+			}
+			self.VisitChildren(n)
+		})
+	}
+	for _, td := range ns.TypeDefinitions {
+		checkDef(td, td.GetDefinitionMeta())
+	}
+	for _, pd := range ns.Protocols {
+		checkDef(pd, pd.DefinitionMeta)
+	}
+	verifOut("nodes-without-their-file", unlocated)
+	verifAssert("every-node-carries-the-file-it-was-read-from", unlocated == 0)
 	schema, verr := layoutSchema(ns)
 	verifAssert("every-layout-validates", verr == nil)
 	// reference layout: everything in one file
